@@ -184,7 +184,7 @@ class Seq:
     # ---- one simple (non-control) statement -> (lets, tr, ty)
     def simple(self, s, tr, ty):
         src = ast.unparse(s)
-        if src == 'ns = list(ns)':
+        if src in ('ns = list(ns)', 'x = np.asarray(x)'):      # container / scalar normalisation: point-wise identity
             return [], tr, ty
         if isinstance(s, ast.Assign) and len(s.targets) == 1:
             t, v = s.targets[0], s.value
@@ -643,6 +643,62 @@ def generate(repo):
         g.item(py, f'prysm/polynomials/hermite.py:{py}', (lambda py=py: get_def(her0, py)), build,
                f'def {lean} (n : Int) (x : K) : K := if n = 0 then Num.ofInt 0 else '
                + ('Num.ofInt n' if py == 'hermite_He_der' else 'Num.ofInt (2 * n)') + f' * {M7}.{"hermiteHe" if py == "hermite_He_der" else "hermiteH"} (n - 1).toNat x')
+
+    # ---- no module-level mutable cache reachable from a *_seq routine whose key omits the dtype of the coordinates
+    def no_dtype_blind_cache():
+        """True: no *_seq routine (nor a module-local helper it calls) writes to a module-level container / global;
+        False: one does, caches something computed from an array parameter, and the key expression does not mention `dtype`;
+        None: a cache whose key handling this reader does not understand."""
+        verdict = True
+        for rel in ('jacobi', 'cheby', 'legendre', 'hermite', 'laguerre', 'dickson', 'zernike', 'qpoly', 'xy'):
+            mod, _ = load(repo, f'prysm/polynomials/{rel}.py')
+            mutable = set()
+            for st in mod.body:
+                if isinstance(st, ast.Assign) and isinstance(st.value, (ast.Dict, ast.List, ast.Set)) or \
+                        isinstance(st, ast.Assign) and isinstance(st.value, ast.Call) and \
+                        ast.unparse(st.value.func).split('.')[-1] in ('dict', 'list', 'set', 'defaultdict', 'OrderedDict', 'WeakValueDictionary'):
+                    mutable |= {t.id for t in st.targets if isinstance(t, ast.Name)}
+            funcs = {f.name: f for f in mod.body if isinstance(f, ast.FunctionDef)}
+            reach, todo = set(), [nm for nm in funcs if nm.endswith('_seq')]
+            while todo:
+                nm = todo.pop()
+                if nm in reach:
+                    continue
+                reach.add(nm)
+                for c in ast.walk(funcs[nm]):
+                    if isinstance(c, ast.Call) and isinstance(c.func, ast.Name) and c.func.id in funcs:
+                        todo.append(c.func.id)
+            for nm in reach:
+                fn = funcs[nm]
+                params = {a.arg for a in fn.args.args}
+                arrayish = {q for q in params if any(isinstance(n, ast.Attribute) and isinstance(n.value, ast.Name) and n.value.id == q
+                                                     and n.attr in ('dtype', 'shape', 'ndim') for n in ast.walk(fn))}
+                for n in ast.walk(fn):
+                    if isinstance(n, ast.Global):
+                        return None
+                    store = None
+                    if isinstance(n, ast.Assign):
+                        for t in n.targets:
+                            if isinstance(t, ast.Subscript) and isinstance(t.value, ast.Name) and t.value.id in mutable:
+                                store = (t.slice, n.value)
+                    if isinstance(n, ast.Call) and isinstance(n.func, ast.Attribute) and isinstance(n.func.value, ast.Name) \
+                            and n.func.value.id in mutable and n.func.attr in ('setdefault', 'update', 'append', '__setitem__'):
+                        store = (n.args[0] if n.args else None, n.args[-1] if n.args else None)
+                    if store is None:
+                        continue
+                    key, val = store
+                    if key is None or val is None:
+                        return None
+                    # resolve a key given as a local name (`key = (...)` earlier in the function)
+                    ktxt = ast.unparse(key)
+                    if isinstance(key, ast.Name):
+                        defs = [a.value for a in ast.walk(fn) if isinstance(a, ast.Assign) and any(isinstance(t, ast.Name) and t.id == key.id for t in a.targets)]
+                        ktxt = ' '.join(ast.unparse(d) for d in defs)
+                    uses_array = any(isinstance(q, ast.Name) and q.id in arrayish for q in ast.walk(val))
+                    if uses_array and 'dtype' not in ktxt:
+                        verdict = False
+        return verdict
+    g.fact('seqRoutinesHaveNoDtypeBlindCache', 'prysm/polynomials/*.py', no_dtype_blind_cache)
 
     # ---- the `*_seq` sweeps, statement by statement
     jac, _ = load(repo, 'prysm/polynomials/jacobi.py')
